@@ -152,6 +152,7 @@ func checkC06(c *Ctx, r *Report) {
 	crossSignRule(c, r)
 	exactStoreRule(c, r)
 	tagNameRule(c, r)
+	accessorTightRule(c, r)
 }
 
 // tagNameRule (R06g): in a struct tag `name,opt,opt` only the parts after the first comma are
